@@ -1086,16 +1086,19 @@ def run(ctx: Ctx):
     for c in cases:
         c["corpus"] = True
     ctx.count("corpus.cases", len(cases))
+    if os.environ.get("C14_ONLY_CORPUS"):      # rehearsal aid: what does the seed-independent part catch on its own?
+        run_cases(ctx, cases)
+        return
     # every small shape (batch 1..3 x T 1..3 x ns,nc 1..2): the D18 region and its neighbours
     for sh in small_shapes():
         if ctx.quick and rng.random() < 0.5:
             continue
         cases.append(gen_lqr_case(rng, small=sh))
-    for _ in range(ctx.pick(130, 2000)):
+    for _ in range(ctx.pick(100, 2000)):
         cases.append(gen_lqr_case(rng, big=True))
-    for _ in range(ctx.pick(30, 300)):
+    for _ in range(ctx.pick(22, 300)):
         cases.append(gen_mpc_linear_case(rng, big=not ctx.quick))
-    for _ in range(ctx.pick(26, 400)):
+    for _ in range(ctx.pick(20, 400)):
         cases.append(gen_mpc_nls_case(rng, big=not ctx.quick))
     run_cases(ctx, cases)
     run_stepper(ctx, ctx.pick(100, 1000))
